@@ -258,3 +258,30 @@ def per_element(t: T):
         it, lid = src.args[2][0]
         return fuse_elems(src.args[1]), lid, it, src.args[3]
     return None
+
+
+def keyed_writes(res, base_pred=lambda b: True):
+    """normalised stream of `container[key] = value` writes: item stores and
+    `.update(...)` with a dict / pair comprehension or a dict literal.
+    Yields (key, value, guard formula, event)."""
+    out = []
+    for e in res.events:
+        if e.kind == "setitem" and base_pred(e.data["base"]):
+            out.append((e.data["index"], e.data["value"], e.live, e))
+        elif e.kind == "call" and e.data.get("mutates_recv") and \
+                e.data.get("name") == ".update" and \
+                e.data.get("recv") is not None and \
+                base_pred(e.data["recv"]) and len(e.data["args"]) == 1:
+            a = e.data["args"][0]
+            while a.op == "named":
+                a = a.args[1]
+            if a.op == "comp" and a.args[1].op == "tuple" and \
+                    len(a.args[1].args) == 2:
+                k, v = a.args[1].args
+                out.append((k, v, tm.mk_and(e.live, *a.args[3]), e))
+            elif a.op == "dict":
+                for k, v in a.args:
+                    out.append((k, v, e.live, e))
+            else:
+                out.append((None, a, e.live, e))
+    return out
